@@ -396,9 +396,15 @@ func famC09(g *Gen, o *Out, n int, thorough bool) {
 		for _, in := range inputs {
 			ro := defaultReadOpts()
 			ro.zeroEOF = g.pick(3) == 0
-			switch g.pick(3) {
+			switch g.pick(4) {
 			case 0: // small limits so that "over the limit" is cheap to produce
 				ro.ms, ro.mh = uint64(64+g.pick(200)), uint64(64+g.pick(400))
+			case 1: // the smallest configurable limits: 0 and 1 are limits, not "use the default"
+				if g.pick(2) == 0 {
+					ro.ms = uint64(g.pick(2))
+				} else {
+					ro.mh = uint64(g.pick(2))
+				}
 			}
 			refSections(in, o.Hash)
 			for _, ep := range c09Entries {
@@ -440,12 +446,19 @@ func famC09(g *Gen, o *Out, n int, thorough bool) {
 			}
 			hdrLen := int(arch[hp])
 			secLen := len(sectionOf(bs[0])) - 1 // one-byte varint for these sizes
-			for _, d := range []int{-1, 0, 1} {
+			for _, d := range []int{-1, 0, 1, -1000000} {
 				r2 := defaultReadOpts()
+				if d == -1000000 { // a configured limit of zero
+					if which == "header" {
+						d = -hdrLen
+					} else {
+						d = -secLen
+					}
+				}
 				if which == "header" {
 					r2.mh = uint64(hdrLen + d)
 					if g.pick(2) == 0 {
-						r2.ms = uint64(hdrLen + d - 2 + 4*g.pick(2))
+						r2.ms = uint64(max(0, hdrLen+d-2+4*g.pick(2)))
 					}
 				} else {
 					r2.ms = uint64(secLen + d)
